@@ -31,7 +31,7 @@ def cases(tier, seed):
     for k in range(n):
         mode = ["plain", "sym", "ground", "compressible", "rotational", "sym"][k % 6]
         symc = mode in ("sym", "ground")
-        ns = int(rng.choice([1, 2]))
+        ns = int(rng.choice([1, 2, 3]))
         surfs = []
         for s in range(ns):
             half = str(rng.choice(["left", "right"])) if symc else "full"
